@@ -43,9 +43,19 @@ def rule_unwind(ctx):
     # user Drop impls (a panicking destructor during unwinding aborts) and extern ABIs
     drops = [i for i in prog.f.impls if i.get('trait') in ('std::ops::Drop', 'core::ops::Drop')]
     if drops:
+        import r_panic
         for d in drops:
-            obs.append(bad('UNWIND', 'UNWIND|drop-impl|%s' % d['self'], 'user Drop impl for %s: runs during unwinding out of a handler; must be reviewed' % d['self'],
-                           '%s:%d' % (d['span']['file'], d['span']['line'])))
+            bodies = [b for b in prog.bodies if b.impl_trait in ('std::ops::Drop', 'core::ops::Drop') and b.impl_self == d['self']]
+            reach = [prog.by_id[i] for b in bodies for i in prog.reach([b.id])]
+            pobs, sites = r_panic.evaluate(reach)
+            risky = [o for o in pobs if o.status == 'violated']
+            cbs = [c for b in reach for c in b.live_calls if prog.is_callback(c)]
+            key = 'UNWIND|drop-impl|%s' % d['self']
+            where = '%s:%d' % (d['span']['file'], d['span']['line'])
+            if risky or cbs:
+                obs.append(bad('UNWIND', key, 'user Drop impl for %s can panic / call back (%s): a second panic while unwinding out of a handler aborts the process' % (d['self'], (risky[0].what if risky else 'callback')[:120]), where))
+            else:
+                obs.append(ok('UNWIND', key, 'user Drop impl for %s has no undischarged panic site and calls nothing back (%d bodies)' % (d['self'], len(reach)), where))
     else:
         obs.append(ok('UNWIND', 'UNWIND|drop-impl', 'no user Drop impl among %d impls' % len(prog.f.impls)))
     ext = [u for u in prog.f.unsafe if u['what'] in ('extern_abi', 'extern_block')]
